@@ -37,4 +37,11 @@ theorem source_iterator_is_window {α : Type} (day utcDay : α → Int) (fromD t
 theorem source_yearly_loop_is_model (period : Int) (fs : List Fraction) (h : ∀ f ∈ fs, Tables.lotlessDisposal f = false) :
     fs.foldlM (Tables.yearlyRound period) [] = some (yearly period fs) := Tables.yearly_loop_is_yearly period fs h
 theorem source_yearly_cut (d t : Int) : Gen.L.yearlyStops d t = !decide (d ≤ t) := Tables.yearly_cut d t
+
+/-- the same with the loop's own `break`: over all fractions in the order of the gain / loss set, stopping where the translated to-date test
+    fires — the lines `compute` (= ComputedData) reports before the from-year filter (`C10.model_yearly_lines_of_window`) -/
+theorem source_yearly_loop_with_break_is_model (period t : Int) (fs : List Fraction) (h : ∀ f ∈ fs, Tables.lotlessDisposal f = false) :
+    Tables.forBreak (fun f : Fraction => Gen.L.yearlyStops f.ev.ts.day t) (Tables.yearlyRound period) [] fs =
+      some (yearly period (cutAt (fun f : Fraction => f.ev.ts.day) (some t) fs)) :=
+  Tables.yearly_loop_with_break_is_model period t fs h
 end Rp2.C06
